@@ -20,6 +20,7 @@ if persist:
         subprocess.check_call(['git', '-C', '/repo', 'worktree', 'add', '--detach', wt, 'HEAD'], stdout=subprocess.DEVNULL, stderr=subprocess.DEVNULL)
     subprocess.check_call(['git', '-C', wt, 'checkout', '-q', '--detach', subprocess.check_output(['git', '-C', '/repo', 'rev-parse', 'HEAD'], text=True).strip()])
     subprocess.check_call(['git', '-C', wt, 'checkout', '-q', '--', '.'])
+    subprocess.check_call(['git', '-C', wt, 'clean', '-fdq'])   # files a previous patch added
 else:
     wt = tempfile.mkdtemp(prefix='vmut-', dir='/tmp')
     os.rmdir(wt)
@@ -50,6 +51,7 @@ try:
 finally:
     if persist:
         subprocess.call(['git', '-C', wt, 'checkout', '-q', '--', '.'])
+        subprocess.call(['git', '-C', wt, 'clean', '-fdq'])
         shutil.rmtree(evbak, ignore_errors=True)
     else:
         subprocess.call(['git', '-C', '/repo', 'worktree', 'remove', '--force', wt], stdout=subprocess.DEVNULL, stderr=subprocess.DEVNULL)
